@@ -22,25 +22,22 @@ from .. import guards as G
 from .. import instrs as I
 from ..model import AnalysisError, Unknown, dotted, src
 
-TECHNIQUE = "dispatch exhaustiveness, must-pass-once CFG path rule, None-guard dominance, handler dataflow signatures vs reference semantics; abstract interpretation of small functions over an enumerated finite domain by the checker's own AST interpreter (static analysis)"
-ENGINES = ["model", "flow", "instrs", "circuit"]
+TECHNIQUE = "differential abstract execution: the repository's Executor (built by its constructor, programs parsed by the repository's parser) driven by the checker's AST interpreter and compared with a reference semantics after every subroutine; dispatch exhaustiveness, must-pass-once CFG path rule, fault atomicity and used-set rules (static analysis)"
+ENGINES = ["model", "flow", "circuit", "session", "refsem"]
 EXPLANATION = (
     "Over backend/executor.py and lang/instr/core.py: every listed classical instruction is dispatched to a handler; every "
     "handler (21 under @inc_program_counter plus the branch handler) updates the program counter exactly once on every "
-    "non-raising path of its CFG, the decorator increments after the call; values read through Optional getters reach "
-    "register/array/shared-memory writes only below a dominating raising None test; `mod < 1` raises before computing; the "
-    "six branch predicates and four arithmetic operations, read from the AST and evaluated on an integer grid, equal the "
-    "reference semantics; each handler's dataflow signature (which operand field flows to which write) equals "
-    "reference/classical_semantics.json; the reported fault line is the counter read before execution."
+    "non-raising path of its CFG, the decorator increments after the call; the reported fault line is the counter read before "
+    "execution. What each instruction does to registers, arrays, the counter and the shared memory - operand roles, predicates, "
+    "arithmetic, the guards against undefined values - is decided by C04.D on executed programs (below)."
     ' C04.M: the memory primitives (Arrays, RegisterGroup, SharedMemory) store exactly once what they are given and declare fresh arrays. C04.F: inside an executor method no state effect precedes an explicit raise/assert on any path (a fault leaves the state untouched). C04.Z: no truthiness test on an int-typed value.'
     ' C04.Q: the in-use-set bookkeeping rules of C13.U evaluated under this property (qalloc / qfree bookkeeping). C04.K: memoisation keys cover the arguments.'
     ' Executed abstractly (checker-side AST interpreter, nothing of the repository runs): _handle_branch_instr for the six predicates over a 4x4 grid of operand values with two applications (counter = target iff the reference predicate holds, else +1; other counters untouched); the seven state accessors (_get/_set_register, _expand_array_part incl. undefined index registers, _get/_set_array_entry, _get_array, _initialize_array) on modelled register banks and array stores of two applications; _compute_binary_classical_instr for the four classes over a grid and four moduli; RegisterGroup.__getitem__.'
     ' C04.E executes the command loop with a scripted _execute_command over eight counter histories and three fault positions with a raising and a returning exception hook; C04.M executes SharedMemory.set_register / get_register for four banks and both register forms; C04.H: no type test already decided by an earlier test on a base class.'
+    " C04.D: 130 programs (arithmetic, branches, arrays, qubit bookkeeping, several subroutines, faults) parsed by the repository's parser are executed by the repository's Executor - built by its own constructor, driven by the checker's interpreter - and by the reference semantics nqsa/refsem.py; after every subroutine both agree on finished / faulted and the line named, every register, every array, the allocated qubits (= the in-use set) and the shared memory (a returned array is shared with the host). The shape rules on handler signatures, None guards, predicates and arithmetic are retired in its favour; Arrays is executed as a script."
 )
 LEVEL_TEXT = (
-    "Static analysis, partial: per-handler and per-instruction-class clauses (dispatch, PC-once, None guards, predicates, operand-role "
-    "signatures, fault line) decided for all handlers. Not decided: equality with a reference interpreter over all programs, "
-    "Python negative indexing of arrays, quantum hooks."
+    "Abstract execution (differential against a reference semantics) over an enumerated family of programs for the instruction semantics and the faults; static path rules for dispatch exhaustiveness, the program counter, fault atomicity and the in-use set. Not decided: programs outside the family (e.g. a branch on an undefined register is not specified and not executed), the exception class of a fault."
 )
 LEVEL_NOTE = "subclasses overriding hooks are outside the claim; exceptional edges out of ordinary calls are not modelled (a raising path stops execution by C04.E)"
 ASSUMPTIONS = [LEVEL_NOTE]
